@@ -788,22 +788,29 @@ def iteration_is_the_one_registered_now(col):
     iteration is registered, registered differently, and withdrawn (iterate=False) between evaluations of the same spec objects"""
     from glom import Glommer
     forward, backward, doubled = (lambda b: iter(b.items)), (lambda b: reversed(b.items)), (lambda b: iter(b.items + b.items))
-    specs = [('Fold-list', lambda: Fold(T, init=list, op=lambda a, x: a + [x]), lambda it: functools.reduce(lambda a, x: a + [x], it, [])),
-             ('Sum', lambda: Sum(), lambda it: sum(it)),
-             ('Sum-subspec', lambda: Sum(T), lambda it: sum(it)),
-             ('Flatten', lambda: (T, [lambda x: [x, -x]], Flatten()), None),
-             ('Fold-sub', lambda: Fold(T, init=int, op=lambda a, x: a * 10 + x), lambda it: functools.reduce(lambda a, x: a * 10 + x, it, 0))]
+    nums, lists, maps = (lambda: _Bag(1, 2, 3)), (lambda: _Bag([1], [2, 3], [], [4])), (lambda: _Bag({'a': 1}, {'a': 2, 'b': 3}, {'c': 4, 'a': 5}))
+
+    def ref_merge(it):
+        out = {}
+        for d in it:
+            out.update(d)
+        return out
+    specs = [('Fold-list', lambda: Fold(T, init=list, op=lambda a, x: a + [x]), lambda it: functools.reduce(lambda a, x: a + [x], it, []), nums),
+             ('Sum', lambda: Sum(), lambda it: sum(it), nums),
+             ('Sum-subspec', lambda: Sum(T), lambda it: sum(it), nums),
+             ('Fold-sub', lambda: Fold(T, init=int, op=lambda a, x: a * 10 + x), lambda it: functools.reduce(lambda a, x: a * 10 + x, it, 0), nums),
+             ('Flatten', lambda: Flatten(), lambda it: list(itertools.chain.from_iterable(it)), lists),
+             ('Flatten-lazy', lambda: (Flatten(init='lazy'), list), lambda it: list(itertools.chain.from_iterable(it)), lists),
+             ('Merge', lambda: Merge(), ref_merge, maps)]
     histories = [[forward, backward], [forward, False], [False, forward], [forward, doubled, backward], [backward, False, forward], [forward, forward, False, doubled]]
     for hi, history in enumerate(histories):
-        for sname, mk_spec, ref in specs:
-            if ref is None:
-                continue
+        for sname, mk_spec, ref, mk_target in specs:
             for reuse in (True, False):
                 gl = Glommer()
                 spec = mk_spec()
                 for step, handler in enumerate(history):
                     gl.register(_Bag, iterate=handler)
-                    target = _Bag(1, 2, 3)
+                    target = mk_target()
                     got = call(gl.glom, target, spec if reuse else mk_spec())
                     col.case(('iteration-registered-now', sname, hi, step, reuse), True)
                     col.count('glom_evaluations')
@@ -812,7 +819,7 @@ def iteration_is_the_one_registered_now(col):
                         ok = (not got.ok) and isinstance(got.exc, FoldError)
                         want = 'a FoldError (the type is registered as not iterable)'
                     else:
-                        w = ref(handler(_Bag(1, 2, 3)))
+                        w = ref(handler(mk_target()))
                         ok = got.ok and got.value == w
                         want = repr(w)
                     if not ok:
